@@ -5,6 +5,7 @@
 -/
 import ErgoProofs.Lemmas.ProcBytesThm
 import ErgoProofs.Lemmas.ConcReach
+import ErgoProofs.Lemmas.PropsAux
 open Ergo Ergo.Storage Ergo.Codec Ergo.Proc
 namespace Ergo.ProcB
 
@@ -30,5 +31,22 @@ theorem conc_disk_allInv (f : Bytes) (log0 : List Event) (envs : List (Env × Se
     rw [List.getElem?_eq_getElem hinv.cur]; exact List.getElem_mem _)
   rw [abs_log s hinv.cur, decode_of_ok hes'] at hg
   exact ⟨es', g, hlim ▸ hes', hg, hinvg⟩
+
+/-- … and whatever a lock-free reader of the bytes decoded meanwhile replays and satisfies every invariant -/
+theorem conc_disk_reader_valid (f : Bytes) (log0 : List Event) (envs : List (Env × Sec)) (nr limit : Nat) (ets : Event → String)
+    (hf : readEvents classifyLine limit f = .ok log0) (hfw : AllWf log0) (h0 : SecReach log0)
+    (hok : ∀ es ∈ envs, SecOK es.1 es.2) (hT : ∀ es ∈ envs, EnvT es.1)
+    (s : BSys) (h : BReachableNT (BSys.init f (envs.map fun (es : Env × Sec) => secDecide es.1 es.2) nr limit ets) s)
+    (hclock : ∀ (i p : Nat) (snap : List Event) (w : Write) (g : Graph), s.commits[i]? = some (p, snap, w) → replayRaw snap = .ok g →
+               ∀ es : Env × Sec, envs[p]? = some es → EnvOK g es.1)
+    (r : Nat) (seen : List Event) (hr : s.readers[r]? = some (.done seen)) :
+    ∃ g, replay seen = .ok g ∧ AllInv g := by
+  have hw : ∀ d ∈ envs.map (fun (es : Env × Sec) => secDecide es.1 es.2), ∀ snap wr, AllWf snap → d snap = .ok wr → AllWf wr.events := by
+    intro d hd snap wr hs hdw
+    obtain ⟨es, hes, rfl⟩ := List.mem_map.1 hd
+    exact cmdWriter_wf es.1 (hT es hes) es.2 snap wr hs hdw
+  obtain ⟨hreach, _⟩ := reach_sim h (inv_init f _ nr limit ets log0 hf hfw hw)
+  rw [abs_init, decode_of_ok hf] at hreach
+  exact reader_state_valid log0 envs nr (abs s) hreach h0 hok hclock r seen hr
 
 end Ergo.ProcB
